@@ -605,9 +605,15 @@ def execute_and_judge(chk, own, lives, n_fresh, tag):
     rnd = random.Random(chk.seed + 5)
     rnd.shuffle(others)
     fresh = set((plain[: (n_fresh * 2) // 3] + others)[:n_fresh])
+    import time
+
+    t0 = time.time()
     recorded, texts = run_lives(lives, fresh, tag)
+    t1 = time.time()
     events, where = assemble(lives, recorded)
     viol, r = validate(events, tag)
+    chk.add(phase_seconds={"tlc_design_and_histories": round(t0 - chk.t0, 1), "real_processes": round(t1 - t0, 1),
+                           "trace_validation": round(time.time() - t1, 1)})
     chk.add(states=r.distinct, transitions=r.generated, traces_validated_against_impl=len(lives),
             fresh_interpreters=len(fresh), forked_interpreters=len(lives) - len(fresh))
     chk.note(f"{tag}: {len(lives)} process histories ({len(fresh)} in brand-new interpreters), {len(events)} events "
@@ -739,7 +745,8 @@ def c13_axes(quick):
 def run_c13(chk):
     quick = chk.tier == "quick"
     seeds = seeds_for(chk, 1 if quick else 4)
-    base = consts(Sig=["s1"], Route=[0] if quick else [0, 1], Opt=["o1"], Vis=["v1", "v2"], Conf=["none", "pwd"],
+    base = consts(Sig=["s1"], Route=[0] if quick else [0, 1], Opt=["o1"], Vis=["v1", "v2"],
+                  Conf=["none"] if quick else ["none", "pwd"],
                   Hid=["h1", "h2"], Flag=["f1"] if quick else ["f1", "f2"], MaxObjs=2, MaxEvents=4)
     small = dict(base, Opt=["o1"], Flag=["f1"], Route=[0], Conf=["none"], MaxEvents=4)
     jobs0 = ([
@@ -760,8 +767,10 @@ def run_c13(chk):
         jobs.append(lambda g=g, name=name: enumerate_histories(f"c13-enum-{name}", dict(g, MaxEvents=2)))
         # (one long-lived process per behaviour on the conf axis: the option files are fixed at Spawn)
         gs = dict(g, Proc=["p1"] if name == "conf" else ["p1", "p2", "p3"], Seed=seeds, Route=[0, 1])
-        jobs.append(lambda gs=gs, name=name, i=i: simulate_histories(
-            f"c13-sim-{name}", gs, 60 if quick else 500, 40 if quick else 60, chk.seed + 31 + i))
+        # (the two-mesh requests are lived alone under every seed / offset; their random histories only in thorough)
+        nsim = (0 if name == "twomesh" else 60) if quick else 500
+        jobs.append(lambda gs=gs, name=name, i=i, nsim=nsim: simulate_histories(
+            f"c13-sim-{name}", gs, nsim, 40 if quick else 60, chk.seed + 31 + i) if nsim else ([], None))
     res = run_parallel(jobs0 + jobs)[len(jobs0):]
     enum = dedupe([x for (h, _) in res[0::2] for hh in h for x in lives_of(hh)])    # depth 2: Spawn + one event
     sim = dedupe([x for (h, _) in res[1::2] for hh in h for x in lives_of(hh)])
@@ -773,7 +782,7 @@ def run_c13(chk):
     recipes = set(single)
     must = [x for x in enum if x["events"][0]["act"] == "Name" and x["events"][0]["recipe"]["tmpl"] in meta.REQ_TWO_MESH
             and (x["seed"] == 0 or x["events"][0]["route"] == 0)]
-    chk.add(transitions=sum(r.generated for _, r in res), states=sum(r.distinct for _, r in res[0::2]),
+    chk.add(transitions=sum(r.generated for _, r in res if r), states=sum(r.distinct for _, r in res[0::2]),
             requests_in_algebra=len(recipes), histories_simulated=sum(len(h) for h, _ in res[1::2]),
             candidate_lives=len(enum) + len(sim))
     lives, seen, spent = select(enum + sim, 50 if quick else 550, must)
